@@ -16,6 +16,10 @@
 #include <string.h>
 #include <stdint.h>
 
+#include <errno.h>
+#include <ufw/allocator.h>
+#include <ufw/endpoints.h>
+#include <ufw/register-protocol.h>
 #include <ufw/register-table.h>
 
 #include "driver.h"
@@ -160,6 +164,33 @@ static int fe_cb(RegisterTable *t, RegisterHandle h, void *arg)
     long long r = FE.k < FE.n ? FE.s[FE.k] : 0;
     FE.k++;
     return (int)r;
+}
+
+/* ---- protocol server on the table (composition, spec/RegServer.tla) */
+static unsigned char srv_out[1 << 14];
+static size_t srv_outn;
+static ssize_t srv_sink(void *d, const void *b, size_t n)
+{
+    (void)d;
+    if (srv_outn + n > sizeof srv_out) return -ENOMEM;
+    memcpy(srv_out + srv_outn, b, n); srv_outn += n;
+    return (ssize_t)n;
+}
+typedef struct { const unsigned char *p; size_t n, pos; } SrvArr;
+static int srv_src(void *d, void *o)
+{
+    SrvArr *a = d;
+    if (a->pos >= a->n) return -ENODATA;
+    *(unsigned char *)o = a->p[a->pos++];
+    return 1;
+}
+static RPBlockAccess srv_read(uint32_t a, size_t n, uint16_t *buf)
+{
+    return regaccess2blockaccess(register_block_read(&T, a, (RegisterOffset)n, buf));
+}
+static RPBlockAccess srv_write(uint32_t a, size_t n, const uint16_t *buf)
+{
+    return regaccess2blockaccess(register_block_write(&T, a, (RegisterOffset)n, (RegisterAtom *)(uintptr_t)buf));
 }
 
 void adapter_exec(Ev *ev)
@@ -341,6 +372,32 @@ void adapter_exec(Ev *ev)
         RegisterAccess r = register_sanitise(&T);
         obs(ev, cls(r.code));
         if (cls(r.code) != 2) { image(ev); obs(ev, -7); touchvec(ev); }
+        return;
+    }
+    if (ev_is(ev, "serve")) {
+        int tr = (int)ev->a[0];
+        size_t cap = (size_t)ev->a[1], nw = (size_t)ev->a[2];
+        unsigned char *wire = nw ? xblock(nw) : xblock0();
+        for (size_t i = 0; i < nw; i++) wire[i] = (unsigned char)ev->a[3 + i];
+        SrvArr wa = { wire, nw, 0 };
+        static RegP rp;
+        static BlockAllocator ba;
+        regp_init(&rp);
+        regp_use_memory16(&rp, srv_read, srv_write);
+        Source s = OCTET_SOURCE_INIT(srv_src, &wa);
+        Sink k = CHUNK_SINK_INIT(srv_sink, NULL);
+        regp_use_channel(&rp, tr == 0 ? RP_EP_SERIAL : RP_EP_TCP, s, k);
+        BlockAllocator b0 = MAKE_STDHEAD_BLOCKALLOC(cap + sizeof(RPFrame));
+        ba = b0;
+        regp_use_allocator(&rp, &ba);
+        srv_outn = 0;
+        RPMaybeFrame mf; memset(&mf, 0, sizeof mf);
+        int rc = regp_recv(&rp, &mf);
+        if (rc >= 0) (void)regp_process(&rp, &mf);
+        regp_free(&rp, rc >= 0 ? mf.frame : NULL);
+        for (size_t i = 0; i < srv_outn; i++) obs(ev, srv_out[i]);
+        obs(ev, -7); image(ev); obs(ev, -7); touchvec(ev);
+        if (nw) xfree(wire); else xfree0(wire);
         return;
     }
     if (ev_is(ev, "corrupt")) {
